@@ -342,9 +342,17 @@ pub fn print_case() -> impl Strategy<Value = PrintCase> {
         PrintKind::Eprintln,
         PrintKind::EprintlnBare,
     ]);
-    let clamp = prop_oneof![4 => 1u16..=4, 3 => prop::sample::select(vec![7u16, 31, 32, 33, 64]), 1 => 200u16..2000];
+    let clamp = prop_oneof![4 => 1u16..=4, 3 => prop::sample::select(vec![7u16, 31, 32, 33, 64]), 1 => 200u16..2000, 1 => prop::sample::select(vec![4095u16, 4096, 4097, 8192])];
     let rest = prop_oneof![2 => Just(None), 3 => clamp.clone().prop_map(Some)];
-    (kind, prop::collection::vec(piece(), 0..6), prop::bool::weighted(0.25), prop::collection::vec(clamp, 0..10), rest)
+    // now and then one long piece (several pages of text), so that a write can be short by pages
+    let pieces = (prop::collection::vec(piece(), 0..6), prop::option::weighted(0.12, (text(4).prop_map(|t| if t.is_empty() { "x".to_string() } else { t }), 300usize..1400))).prop_map(|(mut ps, long)| {
+        if let Some((unit, reps)) = long {
+            let at = ps.len() / 2;
+            ps.insert(at, Piece::S(unit.repeat(reps)));
+        }
+        ps
+    });
+    (kind, pieces, prop::bool::weighted(0.25), prop::collection::vec(clamp, 0..10), rest)
         .prop_map(|(kind, pieces, template, clamps, rest)| PrintCase { kind, pieces, template, clamps, rest })
 }
 
